@@ -83,7 +83,11 @@ type world struct {
 	// handler stubs
 	openOutcome func(path string) int
 	// socket deadline of the host end (Ping)
-	onlyRun      bool // launches always succeed (harnesses that are not about launch failures)
+	openCalls    []OpenCmd // ghost: every os.OpenFile the container issued
+	mkdirCalls   []string  // ghost: every os.MkdirAll the container issued
+	quietFS      bool      // file-system stubs never fail (harnesses that are not about failures)
+	onlyRun      bool      // launches always succeed (harnesses that are not about launch failures)
+	multiProc    bool      // the program may consist of two processes
 	hostConn     unsafe.Pointer
 	hostDeadline bool
 	deadlineGen  int
@@ -230,11 +234,11 @@ func modelRecv(s *socket, e any) (unixsocket.Msg, error) {
 	case *cmd:
 		v, ok := p.val.(cmd)
 		sym.Assert(ok, "model: container received something that is not a command")
-		*dst = v
+		gobMergeCmd(dst, v)
 	case *reply:
 		v, ok := p.val.(reply)
 		sym.Assert(ok, "model: host received something that is not a reply")
-		*dst = v
+		gobMergeReply(dst, v)
 		w.lastReplySeq = p.seq
 	}
 	w.maybeCrash(ep)
@@ -246,6 +250,121 @@ func modelRecv(s *socket, e any) (unixsocket.Msg, error) {
 		msg.Fds = append(msg.Fds, ep.next)
 	}
 	return msg, nil
+}
+
+// gob decodes INTO the destination: fields whose value is the zero value are not transmitted
+// and keep whatever the destination held; pointers are allocated only when nil; a slice with
+// enough capacity is reused element by element.  (With a fresh zero destination per message,
+// as the real loops use, this is plain assignment.)
+func gobMergeCmd(dst *cmd, v cmd) {
+	if v.DeleteCmd != nil {
+		if dst.DeleteCmd == nil {
+			dst.DeleteCmd = &deleteCmd{}
+		}
+		if v.DeleteCmd.Path != "" {
+			dst.DeleteCmd.Path = v.DeleteCmd.Path
+		}
+	}
+	if v.ExecCmd != nil {
+		if dst.ExecCmd == nil {
+			dst.ExecCmd = &execCmd{}
+		}
+		e, d := v.ExecCmd, dst.ExecCmd
+		if len(e.Argv) > 0 {
+			d.Argv = e.Argv
+		}
+		if len(e.Env) > 0 {
+			d.Env = e.Env
+		}
+		if len(e.RLimits) > 0 {
+			d.RLimits = e.RLimits
+		}
+		if len(e.Seccomp) > 0 {
+			d.Seccomp = e.Seccomp
+		}
+		d.FdExec = d.FdExec || e.FdExec
+		d.FdCgroup = d.FdCgroup || e.FdCgroup
+		d.CTTY = d.CTTY || e.CTTY
+		d.SyncAfter = d.SyncAfter || e.SyncAfter
+	}
+	if v.ConfCmd != nil {
+		c := *v.ConfCmd
+		dst.ConfCmd = &c
+	}
+	if n := len(v.OpenCmd); n > 0 {
+		if cap(dst.OpenCmd) >= n {
+			dst.OpenCmd = dst.OpenCmd[:n]
+		} else {
+			dst.OpenCmd = make([]OpenCmd, n)
+		}
+		for k, o := range v.OpenCmd {
+			d := &dst.OpenCmd[k]
+			if o.Path != "" {
+				d.Path = o.Path
+			}
+			if o.Flag != 0 {
+				d.Flag = o.Flag
+			}
+			if o.Perm != 0 {
+				d.Perm = o.Perm
+			}
+			d.MkdirAll = d.MkdirAll || o.MkdirAll
+		}
+	}
+	if n := len(v.SymlinkCmd); n > 0 {
+		if cap(dst.SymlinkCmd) >= n {
+			dst.SymlinkCmd = dst.SymlinkCmd[:n]
+		} else {
+			dst.SymlinkCmd = make([]SymbolicLink, n)
+		}
+		for k, o := range v.SymlinkCmd {
+			d := &dst.SymlinkCmd[k]
+			if o.LinkPath != "" {
+				d.LinkPath = o.LinkPath
+			}
+			if o.Target != "" {
+				d.Target = o.Target
+			}
+		}
+	}
+	if v.Cmd != dst.Cmd && v.Cmd != *new(cmdType) {
+		dst.Cmd = v.Cmd
+	}
+}
+
+func gobMergeReply(dst *reply, v reply) {
+	if v.Error != nil {
+		if dst.Error == nil {
+			dst.Error = &errorReply{}
+		}
+		if v.Error.Errno != nil {
+			dst.Error.Errno = v.Error.Errno
+		}
+		if v.Error.Msg != "" {
+			dst.Error.Msg = v.Error.Msg
+		}
+	}
+	if v.ExecReply != nil {
+		if dst.ExecReply == nil {
+			dst.ExecReply = &execReply{}
+		}
+		e, d := v.ExecReply, dst.ExecReply
+		if e.ExitStatus != 0 {
+			d.ExitStatus = e.ExitStatus
+		}
+		if e.Status != 0 {
+			d.Status = e.Status
+		}
+		if e.Time != 0 {
+			d.Time = e.Time
+		}
+		if e.Memory != 0 {
+			d.Memory = e.Memory
+		}
+	}
+	if len(v.BatchErrors) > 0 {
+		dst.BatchErrors = v.BatchErrors
+	}
 }
 
 func modelSockClose(u *unixsocket.Socket) error {
@@ -269,6 +388,11 @@ type program struct {
 	status   uint32 // wait status once ended
 	killed   bool
 	selfEnds bool // ends by itself at a scheduler-chosen instant
+	// another process of the program (a child it forked): lives until kill(-1), then stays a
+	// zombie of init until wait4(-1) reaps it
+	second       bool
+	secondDead   bool
+	secondReaped bool
 }
 
 // Start modes of the abstract launcher (forkexec.Runner.Start replaced by its C07 contract).
@@ -322,6 +446,7 @@ func (w *world) modelSync(r *forkexec.Runner, p [2]int, pid int, err1 syscall.Er
 	sym.Assume(pr.status&0xff != 0x7f)
 	sym.Assume(low != 0x7f)
 	sym.Assume(pr.status>>16 == 0)
+	pr.second = w.multiProc && sym.Bool("program_has_second_process")
 	pr.selfEnds = true
 	if w.mayRunForever {
 		// only when the harness cancels the run: the program may run until it is killed
@@ -348,6 +473,9 @@ func (w *world) modelKill(pid int, sig syscall.Signal) error {
 			p.killed = true
 			p.status = 9
 		}
+		if p := w.prog; p != nil && p.second {
+			p.secondDead = true
+		}
 		return nil
 	}
 	return syscall.ESRCH
@@ -357,12 +485,24 @@ func (w *world) modelWait4(pid int, ws *syscall.WaitStatus, options int, ru *sys
 	sym.Yield()
 	p := w.prog
 	if pid == -1 {
-		if p != nil && p.started && !p.reaped {
-			sym.WaitUntil(func() bool { return p.ended })
-			p.reaped = true
-			return p.pid, nil
+		if p == nil || !p.started {
+			return -1, syscall.ECHILD
 		}
-		return -1, syscall.ECHILD
+		for {
+			if p.second && p.secondDead && !p.secondReaped {
+				p.secondReaped = true
+				return p.pid + 1, nil
+			}
+			if !p.reaped && p.ended {
+				p.reaped = true
+				return p.pid, nil
+			}
+			if p.reaped && (!p.second || p.secondReaped) {
+				return -1, syscall.ECHILD
+			}
+			// children exist but none has died yet: wait4 blocks
+			sym.WaitUntil(func() bool { return (!p.reaped && p.ended) || (p.second && p.secondDead && !p.secondReaped) })
+		}
 	}
 	if p == nil || p.pid != pid || p.reaped {
 		return -1, syscall.ECHILD
@@ -539,7 +679,8 @@ func (w *world) kindOf(path string) int {
 
 func (w *world) installFileStubs() {
 	sym.Intercept("os.MkdirAll", func(path string, perm os.FileMode) error {
-		if sym.Bool("mkdirall_fails") {
+		w.mkdirCalls = append(w.mkdirCalls, path)
+		if !w.quietFS && sym.Bool("mkdirall_fails") {
 			return &fs.PathError{Op: "mkdir", Path: path, Err: syscall.EACCES}
 		}
 		return nil
@@ -576,8 +717,9 @@ func (w *world) installFileStubs() {
 	sym.Intercept("os.OpenFile", func(path string, flag int, perm os.FileMode) (*os.File, error) {
 		k := w.kindOf(path)
 		w.openedPaths = append(w.openedPaths, path)
+		w.openCalls = append(w.openCalls, OpenCmd{Path: path, Flag: flag, Perm: perm})
 		sym.Assert(k == objAbsent || k == objRegular, "OpenFile reached for an object that is neither a regular file nor absent (planted symlink / FIFO / socket / device / directory)")
-		if sym.Bool("openfile_fails") {
+		if !w.quietFS && sym.Bool("openfile_fails") {
 			return nil, &fs.PathError{Op: "open", Path: path, Err: syscall.EACCES}
 		}
 		pr := w.curProc()
